@@ -957,14 +957,23 @@ fn plan_c37(seed: u64, tier: &str) -> Plan {
                     let (k, id, q0) = if r.chance(0.5) { (k, id, q0) } else { ents[i].clone() };
                     // a mutable change, an immutable change or an inconsistent one
                     let mut q = q0.clone();
-                    match r.below(4) {
+                    match r.below(8) {
                         0 => q.deadline_ns = Some(*r.pick(&[1_000_000u64, 5_000_000_000])),
                         1 => q.user_data = vec![7; r.usize(1, 4)],
                         2 => q.history = Some(q0.history.unwrap_or(1) + 1),
-                        _ => {
+                        3 => {
                             q.max_samples = Some(1);
                             q.max_spi = Some(2);
                         }
+                        // the other mutable policies (each is announced over SEDP; compared on the wire at the end)
+                        4 => q.latency_ns = Some(*r.pick(&[2_000_000u64, 1_250_000_000, 7_000_000_000])),
+                        5 if k == "writer" => q.lifespan_ns = Some(*r.pick(&[750_000_000u64, 3_000_000_000, 60_000_000_000])),
+                        // (may be inconsistent with the deadline: minimum_separation > deadline period is rejected)
+                        5 => q.tbf_ns = Some(*r.pick(&[500_000u64, 1_200_000_000, 4_000_000_000])),
+                        6 if k == "writer" => q.strength = r.range(1, 9) as i32,
+                        // an immutable one: reliability kind
+                        6 => q.reliable = Some(!q0.reliable.unwrap_or(false)),
+                        _ => q.durability = Some(1 - q0.durability.unwrap_or(0).min(1)),
                     }
                     clients[c].push(Op::SetQos { kind: k.into(), id, q });
                 }
@@ -1046,6 +1055,43 @@ fn check_c37(_plan: &Plan, out: &Outcome) -> Verdict {
         if want != got {
             v.violate("C37", "C37.announced-qos-differs", format!("C37.announced-qos-differs {kind} deadline"), format!("{kind} {id}: get_qos returns deadline {:?} ns but the last announcement sent carries {:?} (seconds, fraction)", q.deadline_ns, dl));
         }
+        // the other mutable duration policies and the ownership strength (a parameter equal to its default is omitted
+        // on the wire). QoS durations travel as DDS Duration_t (seconds, nanoseconds) - not as the RTPS (seconds, 2^-32 s
+        // fraction) used for timestamps - so they are compared exactly
+        let wire_dur = |pid: u16, default: Option<u64>| -> Option<u64> {
+            match ps.iter().find(|(p, _)| *p == pid) {
+                None => default,
+                Some((_, val)) if val.len() >= 8 => {
+                    let (s, f) = (i32::from_le_bytes([val[0], val[1], val[2], val[3]]), u32::from_le_bytes([val[4], val[5], val[6], val[7]]));
+                    if s == i32::MAX { None } else { Some(s as u64 * 1_000_000_000 + f as u64) }
+                }
+                Some(_) => Some(u64::MAX),
+            }
+        };
+        let close = |a: Option<u64>, b: Option<u64>| match (a, b) {
+            (None, None) => true,
+            (Some(x), Some(y)) => x == y,
+            _ => false,
+        };
+        let mut durs: Vec<(&str, u16, Option<u64>, Option<u64>)> = vec![("latency_budget", 0x0027, Some(q.latency_ns.unwrap_or(0)), Some(0)), ("deadline (exact)", 0x0023, q.deadline_ns, None)];
+        if kind == "writer" {
+            durs.push(("lifespan", 0x002b, q.lifespan_ns, None));
+        } else {
+            durs.push(("time_based_filter", 0x0004, Some(q.tbf_ns.unwrap_or(0)), Some(0)));
+        }
+        for (name, pid, want, default) in durs {
+            let got = wire_dur(pid, default);
+            if !close(want, got) {
+                v.violate("C37", "C37.announced-qos-differs", format!("C37.announced-qos-differs {kind} {name}"), format!("{kind} {id}: get_qos returns {name} {want:?} ns but the last announcement sent carries {got:?} ns"));
+            }
+        }
+        if kind == "writer" {
+            let got = ps.iter().find(|(p, _)| *p == 0x0006).map(|(_, val)| if val.len() >= 4 { i32::from_le_bytes([val[0], val[1], val[2], val[3]]) } else { i32::MIN }).unwrap_or(0);
+            if got != q.strength {
+                v.violate("C37", "C37.announced-qos-differs", format!("C37.announced-qos-differs {kind} ownership_strength"), format!("{kind} {id}: get_qos returns ownership strength {} but the last announcement sent carries {got}", q.strength));
+            }
+        }
+        v.probe("announced_policies_compared", 5);
     }
     v
 }
